@@ -559,7 +559,10 @@ class BitArray(Bits):
                 if len(f) == 1:
                     bytesizes.append(utils.PACK_CODE_SIZE[f])
                 else:
-                    bytesizes.extend([utils.PACK_CODE_SIZE[f[-1]]] * int(f[:-1]))
+                    try:
+                        bytesizes.extend([utils.PACK_CODE_SIZE[f[-1]]] * int(f[:-1]))
+                    except OverflowError:
+                        raise ValueError(f"The repeat count in the format string {fmt} is too large.")
         elif isinstance(fmt, abc.Iterable):
             # Needs to be gone through more than once, so make sure it's not just an iterator.
             bytesizes = list(fmt)
